@@ -43,7 +43,14 @@ def main():
     t0 = time.time()
     try:
         # a scratch git worktree of /repo's HEAD (so that patches written against an older HEAD can be 3-way merged)
-        rc, out = sh("git -C /repo worktree add -q --detach %s HEAD" % scratch)
+        # SEED_BASE: commit to base the scratch tree on (default: /repo's HEAD), e.g. the head of a not-yet-landed fix branch
+        base = os.environ.get("SEED_BASE", "HEAD")
+        res["base"] = sh("git -C /repo rev-parse --short %s" % base)[1].strip()
+        rc, out = sh("git -C /repo worktree add -q --detach %s %s" % (scratch, base))
+        demo = os.path.join(d, "demo.py")
+        if os.path.exists(demo):   # the demonstration on the unchanged base tree
+            rc, out = sh("%s -W ignore %s" % (PY, demo), cwd="/tmp", env={"PYTHONPATH": scratch, "OMP_NUM_THREADS": "1"}, timeout=900)
+            res["demo_clean_rc"], res["demo_clean_out"] = rc, out[-600:]
         rc, out = sh("git apply %s" % os.path.join(d, "patch.diff"), cwd=scratch)
         if rc != 0:
             rc, out = sh("git apply -3 %s" % os.path.join(d, "patch.diff"), cwd=scratch)
@@ -59,9 +66,7 @@ def main():
             return 2
         demo = os.path.join(d, "demo.py")
         if os.path.exists(demo):
-            rc, out = sh("%s -W ignore %s" % (PY, demo), cwd="/tmp", env={"PYTHONPATH": "/repo"}, timeout=900)
-            res["demo_clean_rc"], res["demo_clean_out"] = rc, out[-600:]
-            rc, out = sh("%s -W ignore %s" % (PY, demo), cwd="/tmp", env={"PYTHONPATH": scratch}, timeout=900)
+            rc, out = sh("%s -W ignore %s" % (PY, demo), cwd="/tmp", env={"PYTHONPATH": scratch, "OMP_NUM_THREADS": "1"}, timeout=900)
             res["demo_mut_rc"], res["demo_mut_out"] = rc, out[-1200:]
         if "--tests" in flags:
             rc, out = sh("%s -m pytest -q -p no:cacheprovider --timeout=900 -x 2>&1 | tail -4" % PY, cwd=scratch, env={"PYTHONPATH": scratch}, timeout=3000)
